@@ -101,7 +101,7 @@ def check(ctx):
     for s, a, b in zip(seqs, ip, mp):
         if b is not None:
             pa, pb = PL.canon_panic(a), PL.canon_panic(b)
-            same = (pa == pb) if (pa or pb) else (a == re.sub(r";ipos=\d+$", "", b))
+            same = (pa == pb) if (pa or pb) else (PL.strip_msgs(a) == PL.strip_msgs(re.sub(r";ipos=\d+$", "", b)))
             if not same:
                 ndis += 1
                 if len(ctx.corr_disagreements) < 20:
